@@ -719,6 +719,7 @@ class Stream:
         self.rejected_pool = []
         world = gen.World(rng, params=params)
         world.bad_key_prob = bad_key_prob
+        world.odd_reward_prob = rng.choice([0.0, 0.25])
         world.grow(nblocks, rng, tx_prob=0.7)
         names = sorted(classes)
         for k in range(ncand):
